@@ -3,10 +3,27 @@ from common import *
 from engine import RuleResult
 
 
-def rets_from(body, bb, no_unwind=True):
+def rets_from(body, bb, no_unwind=True, infeasible=()):
     out = []
-    for c, d, rb in ret_classes(body, bb, (lambda e: e.kind == "unwind") if no_unwind else (lambda e: False)):
+    inf = set(infeasible)
+    blk = (lambda e: e.kind == "unwind" or (e.src, e.dst) in inf) if no_unwind else (lambda e: (e.src, e.dst) in inf)
+    for c, d, rb in ret_classes(body, bb, blk):
         out.append((c, ret_origin(body, d), rb))
+    return out
+
+
+def continue_edges_of(body, value_pred):
+    """the success edges of every `?` applied to a value satisfying value_pred: infeasible on a path
+    on which that value is already known to be an error (`match r { Err(Io(e)) if … => …, r => r? }`)"""
+    out = set()
+    for bb in body.live_blocks():
+        info = body.switch_info(bb)
+        if info and info["kind"] == "variant":
+            on = peel_var(info["on"])
+            if on[0] == "try" and (value_pred(on[1]) or (len(on) > 2 and value_pred(on[2]))):
+                for e in body.succ[bb]:
+                    if "Continue" in info["arms"].get(e.dst, []):
+                        out.add((e.src, e.dst))
     return out
 
 
@@ -35,8 +52,8 @@ def variant_switches(body, on_pred):
             yield bb, info
 
 
-def check_edge_returns(r, body, func, sw_bb, dst, label, pred, want, floor_note=""):
-    rs = rets_from(body, dst)
+def check_edge_returns(r, body, func, sw_bb, dst, label, pred, want, floor_note="", infeasible=()):
+    rs = rets_from(body, dst, infeasible=infeasible)
     bad = [(c, o, rb) for c, o, rb in rs if not pred(c, o)]
     ok = bool(rs) and not bad
     wit = None
@@ -299,7 +316,13 @@ def v6_write_frame_flushes(ctx):
 
 def kdec_decimal_buffer(ctx):
     r = RuleResult("K-dec", "Connection::write_decimal formats into a stack buffer whose length (read from the local's array type) is at least 20, the widest rendering of an i64 (\"-9223372036854775808\")", floor=1)
-    fam = ctx.prog.family("net::connection::Connection::write_decimal")
+    prog = ctx.prog
+    roots = [r_ for r_ in prog.families if strip_generics(r_) == "net::connection::Connection::write_decimal"]
+    if roots:
+        fam = [x for x in prog.families[roots[0]]]
+    else:
+        # the decimal formatter under another name: the code of the connection module that formats into a cursor
+        fam = [x for x in shipped_bodies(prog) if x.name.startswith("net::connection::") and [1 for _, bb, t in calls_in([x], "std::io::Write::write_fmt") if "macro:debug_assert" not in (t.get("fn_exp") or "") + (t.get("exp") or "")]]
     import re
 
     found = False
@@ -526,6 +549,8 @@ def v5_hint_fallback(ctx):
                     err_locals.add(st["pl"]["l"])
     notfound_edges = set()
     seen_kind = seen_var = False
+    # on an edge where the hint loader's result is known to be an error, `result?` cannot continue
+    hint_q_ok = continue_edges_of(b, lambda o: peel_var(o)[0] == "call" and peel_var(o)[3] == site)
     for bb, info in variant_switches(b, from_hint_err):
         on = peel_var(info["on"])
         all_labs = sum(info["arms"].values(), [])
@@ -541,13 +566,13 @@ def v5_hint_fallback(ctx):
                     else:
                         r.bad(f, "NotFound shares an arm with %d other kinds" % (len(labs) - 1), where(b, bb), "other I/O errors on a hint file would be silently treated as 'no hint'")
                 else:
-                    check_edge_returns(r, b, f, bb, e.dst, "hint error: other io::ErrorKind", lambda c, o: c == "err", "Err")
+                    check_edge_returns(r, b, f, bb, e.dst, "hint error: other io::ErrorKind", lambda c, o: c == "err", "Err", infeasible=hint_q_ok)
         elif "Io" in all_labs and "Serialization" in all_labs:
             seen_var = True
             for e in b.succ[bb]:
                 labs = info["arms"].get(e.dst, [])
                 if labs and "Io" not in labs:
-                    check_edge_returns(r, b, f, bb, e.dst, "hint error: %s" % ",".join(labs), lambda c, o: c == "err", "Err")
+                    check_edge_returns(r, b, f, bb, e.dst, "hint error: %s" % ",".join(labs), lambda c, o: c == "err", "Err", infeasible=hint_q_ok)
     # guard form: `Err(Error::Io(ref ioe)) if ioe.kind() == io::ErrorKind::NotFound`
     for bb in sorted(b.live_blocks()):
         info = b.switch_info(bb)
@@ -570,7 +595,7 @@ def v5_hint_fallback(ctx):
                     if lab == [not neg]:
                         notfound_edges.add((e.src, e.dst))
                     elif lab == [neg]:
-                        check_edge_returns(r, b, f, bb, e.dst, "hint error: other io::ErrorKind", lambda c, o: c == "err", "Err")
+                        check_edge_returns(r, b, f, bb, e.dst, "hint error: other io::ErrorKind", lambda c, o: c == "err", "Err", infeasible=hint_q_ok)
     if not (seen_kind and seen_var):
         r.unrec(f, "routing of the hint loader's error", where(b, hbb), "switch on error variant=%s, on io kind=%s" % (seen_var, seen_kind))
     dom = bool(notfound_edges) and dbb not in reach(b, [0], blocked_edges=lambda e: (e.src, e.dst) in notfound_edges)
